@@ -137,7 +137,7 @@ Qed.
 Lemma int_kinds_all : forall k, match k with KInt _ | KUint _ => In k int_kinds | _ => True end.
 Proof. intros [|w|w| | |]; try exact I; destruct w; simpl; tauto. Qed.
 
-(* an integer position that the side condition admits: the re-rendered text does not convert *)
+(* an integer position that the side condition lets through: the re-rendered text does not convert *)
 Lemma lit_conv_none : forall k s s', rf_ok_lit s s' = true ->
   match k with KInt _ | KUint _ => int_of_lit k s = None -> conv_string k s' = None | _ => True end.
 Proof.
